@@ -19,10 +19,10 @@ func init() {
 }
 
 type freshEngine struct {
-	p        *Prog
-	cg       *CG
-	mutators map[string]bool
-	freshRet map[*Fn]int // 0 unknown, 1 yes, 2 no
+	p          *Prog
+	cg         *CG
+	mutators   map[string]bool
+	freshRet   map[*Fn]int // 0 unknown, 1 yes, 2 no
 	argOrFresh map[*Fn]bool
 }
 
